@@ -1,9 +1,12 @@
 //! C05 — macro usages expand per IEEE 22.5.1 and misuse is reported by name.
 
+use crate::api::*;
 use crate::ctx::{Ctx, Tier};
+use crate::lexer;
 use crate::props::c04;
 use crate::util::*;
 use crate::Env;
+use std::path::Path;
 
 pub fn cases(tier: Tier) -> u64 {
     c04::cases(tier)
@@ -11,6 +14,135 @@ pub fn cases(tier: Tier) -> u64 {
 
 pub fn run_case(_env: &Env, ctx: &mut Ctx, idx: u64) {
     let mut rng = Rng::derive(ctx.seed, 5, idx, 0);
+    if rng.chance(1, 12) {
+        ws_around_usage(ctx, &mut rng, idx);
+        return;
+    }
     let o = c04::profile_c05(&mut rng);
     c04::run_with(ctx, &mut rng, o, "C05");
+}
+
+const GAPS: &[&str] = &[" ", "  ", "\t", "\n", " \n  ", "\r\n", "\n\n", " /* c */ ", "/**/", " // c\n", "\n// c\n\t", " \t \n", "\u{c}"];
+
+/// "Text and white space around the usage are preserved": the reference expander compares tokens, so the bytes
+/// between the neighbours of a usage and its expansion get a check of their own.  A usage stands between two
+/// unique plain tokens A and B with known runs of white space / comments on either side; in the output the text
+/// from the end of A to the beginning of B has to begin with the first run and end with the second one, byte for
+/// byte, with the expansion's tokens in between.
+fn ws_around_usage(ctx: &mut Ctx, rng: &mut Rng, idx: u64) {
+    let n = rng.range(1, 4);
+    let mut src = String::new();
+    src.push_str("`define WA wx1 wy1\n`define WF(a, b) a + b\n`define WE\n`define WN(p) [p]\n`define WD(q = dflt) q ;\n");
+    let mut expect: Vec<(String, String, String, Vec<String>, String)> = Vec::new(); // (A, gap1, gap2, expansion tokens, B)
+    for i in 0..n {
+        let a = format!("wsa_{}_{}", idx, i);
+        let b = if rng.chance(1, 4) { ";".to_string() } else { format!("wsb_{}_{}", idx, i) };
+        let (usage, toks): (String, Vec<&str>) = match rng.below(7) {
+            0 | 1 => ("`WA".into(), vec!["wx1", "wy1"]),
+            2 => (format!("`WF({}p1{},{}q1{})", rng.pick(&["", " "]), rng.pick(&["", " "]), rng.pick(&["", " ", "\n"]), rng.pick(&["", " "])), vec!["p1", "+", "q1"]),
+            3 => ("`WE".into(), vec![]),
+            4 => ("`WN(`WA)".into(), vec!["[", "wx1", "wy1", "]"]),
+            5 => ("`WD()".into(), vec!["dflt", ";"]),
+            _ => ("`WD ( z9 )".into(), vec!["z9", ";"]),
+        };
+        let mut g1 = rng.pick(GAPS).to_string();
+        let mut g2 = rng.pick(GAPS).to_string();
+        if rng.chance(1, 6) && b == ";" {
+            g2 = String::new();
+        }
+        if rng.chance(1, 8) {
+            g1 = format!("{}{}", g1, rng.pick(GAPS));
+        }
+        if rng.chance(1, 8) {
+            g2 = format!("{}{}", g2, rng.pick(GAPS));
+        }
+        src.push_str(&format!("{}{}{}{}{}{}", a, g1, usage, g2, b, rng.pick(&["\n", " ", "\n\n"])));
+        expect.push((a, g1, g2, toks.iter().map(|s| s.to_string()).collect(), b));
+    }
+    ctx.count("programs", 1);
+    ctx.count("ws_programs", 1);
+    let witness = |d: &str, out: &str| Obj::new().s("source", &src).s("output", out).s("detail", d).done();
+    let out = match pp_str(&src, Path::new("ws.sv"), &Cfg::default()) {
+        Err(_) => {
+            ctx.inconclusive("lib_panic");
+            return;
+        }
+        Ok(Err(e)) => {
+            let m = format!("a program of plain usages between plain tokens is rejected: {:?}", e);
+            ctx.violation("ws-around-usage-rejected", "", &m, witness(&m, ""));
+            return;
+        }
+        Ok(Ok((t, _))) => t.text().to_string(),
+    };
+    let mut from = 0usize;
+    for (a, g1, g2, toks, b) in &expect {
+        ctx.count("ws_usages_checked", 1);
+        let pa = match out[from..].find(a.as_str()) {
+            Some(p) => from + p + a.len(),
+            None => {
+                let m = format!("token {} in front of a usage is missing from the output", a);
+                ctx.violation("ws-around-usage", "", &m, witness(&m, &out));
+                return;
+            }
+        };
+        // B: the unique token, or the first `;` that is not part of the expansion (expansions of WD end in one)
+        let pb = if b == ";" {
+            let mut p = pa;
+            let skip = toks.iter().filter(|t| *t == ";").count();
+            let mut seen = 0;
+            let mut found = None;
+            for (i, c) in out[pa..].char_indices() {
+                if c == ';' {
+                    if seen == skip {
+                        found = Some(pa + i);
+                        break;
+                    }
+                    seen += 1;
+                }
+            }
+            p = found.unwrap_or(p);
+            if found.is_none() {
+                let m = format!("the `;` behind the usage after {} is missing from the output", a);
+                ctx.violation("ws-around-usage", "", &m, witness(&m, &out));
+                return;
+            }
+            p
+        } else {
+            match out[pa..].find(b.as_str()) {
+                Some(p) => pa + p,
+                None => {
+                    let m = format!("token {} behind a usage is missing from the output", b);
+                    ctx.violation("ws-around-usage", "", &m, witness(&m, &out));
+                    return;
+                }
+            }
+        };
+        let between = &out[pa..pb];
+        let got: Vec<&str> = lexer::tokens(between);
+        let want: Vec<&str> = toks.iter().map(|s| s.as_str()).collect();
+        let ok_tokens = got == want;
+        let ok_lead = between.starts_with(g1.as_str());
+        let ok_trail = between.ends_with(g2.as_str());
+        // when nothing is expanded the two runs must both be there, one after the other
+        let ok_len = between.len() >= g1.len() + g2.len();
+        if !(ok_tokens && ok_lead && ok_trail && ok_len) {
+            let m = format!(
+                "text between {} and {} is {:?}: expected it to begin with {:?}, to end with {:?} and to hold the tokens {:?} (tokens {}, leading run {}, trailing run {})",
+                a,
+                b,
+                between,
+                g1,
+                g2,
+                want,
+                if ok_tokens { "ok" } else { "differ" },
+                if ok_lead { "ok" } else { "differs" },
+                if ok_trail && ok_len { "ok" } else { "differs" }
+            );
+            ctx.violation("ws-around-usage", "", &m, witness(&m, &out));
+            return;
+        }
+        from = pb;
+    }
+    ctx.count("agree_with_reference", 1);
+    ctx.nontrivial(hash_strs(&[&src]));
 }
